@@ -260,22 +260,32 @@ def tsan_stage(ck, cfgs):
         lines.append("+1 +2 | %s | random %d" % (";".join(progs), ck.seed * 77 + i))
     cp = os.path.join(ck.work, "tsan_cases.txt"); open(cp, "w").write(header + "\n".join(lines) + "\n")
     outp = os.path.join(ck.work, "tsan.ndjson")
+    # one report file per process (= per execution): reports of parallel executions must not interleave
+    logd = os.path.join(ck.work, "tsan_logs"); shutil.rmtree(logd, ignore_errors=True); os.makedirs(logd)
     rc, out = vf.run_driver("drv_s_connhealth.tsan", ["conc", cp, outp, 4], timeout=900,
-                            env={"TSAN_OPTIONS": "halt_on_error=0 exitcode=0 report_signal_unsafe=0 report_thread_leaks=0 suppressions=" + os.path.join(vf.HARNESS, "tsan.supp")})
-    if rc != 0 or "executions=" not in out:
+                            env={"TSAN_OPTIONS": "halt_on_error=0 exitcode=0 report_signal_unsafe=0 report_thread_leaks=0 log_path=%s suppressions=%s" % (
+                                os.path.join(logd, "r"), os.path.join(vf.HARNESS, "tsan.supp"))})
+    m = re.search(r"executions=(\d+) crashed=(\d+) timedout=(\d+)", out)
+    if rc != 0 or not m or int(m.group(1)) != len(lines) or int(m.group(3)) > 0:
         raise vf.Infra("drv_s_connhealth.tsan failed: " + out[-1500:])
+    crashed = int(m.group(2))
     shutil.rmtree(outp + ".d", ignore_errors=True)
     ck.evaluations += len(lines)
-    reports = out.split("WARNING: ThreadSanitizer: ")[1:]
-    known, other = 0, []
-    for rep in reports:
-        tops = re.findall(r"^\s+(?:Previous )?(?:[Aa]tomic )?(?:[Rr]ead|[Ww]rite) of size \d+ at \S+ by [^\n]*\n\s+#0 ([^\n]*)", rep, re.M)
-        in_uc = [t for t in tops if "HealthMonitor::updateConfig(" in t]
-        rest = [t for t in tops if "HealthMonitor::updateConfig(" not in t and "ConnectionHealth::ConnectionHealth(" not in t]
-        if rep.startswith("data race") and in_uc and not rest:
-            known += 1
-        else:
-            other.append(rep)
+    known, other, texts = 0, [], []
+    for fn in sorted(os.listdir(logd)):
+        text = open(os.path.join(logd, fn), errors="replace").read(); texts.append(text)
+        for rep in text.split("WARNING: ThreadSanitizer: ")[1:]:
+            tops = re.findall(r"^\s+(?:Previous )?(?:[Aa]tomic )?(?:[Rr]ead|[Ww]rite) of size \d+ at \S+ by [^\n]*\n\s+#0 ([^\n]*)", rep, re.M)
+            in_uc = [t for t in tops if "HealthMonitor::updateConfig(" in t]
+            rest = [t for t in tops if not any(k in t for k in ("HealthMonitor::updateConfig(", "ConnectionHealth::ConnectionHealth(", "HealthMonitor::addConnection(",
+                                                                "make_unique<iora::network::ConnectionHealth"))]
+            if rep.startswith("data race") and len(tops) == 2 and in_uc and not rest:
+                known += 1
+            else:
+                other.append(rep)
+    out = "\n".join(texts)
+    if crashed and not other:
+        other.append("%d execution(s) crashed in the ThreadSanitizer build without a report" % crashed)
     if other:
         rp = ck.save_replay("tsan", {"tsan.out": out[-60000:], "case.txt": header + "\n".join(lines) + "\n"})
         ck.violation("ThreadSanitizer report outside the known updateConfig race: " + " / ".join(other[0].splitlines()[:4])[:500], rp)
